@@ -33,6 +33,8 @@ Definition obs_eqb (a b : obs) : bool :=
 Definition model_ident (c : case) : string * option string :=
   match c_pos c with
   | PResponse | PAlias | PVariable | PInputField => field_names tbl to_snake_case (c_name c)
+  (* a spread member: the fragment's name in snake_case, escaped; flattened, so no wire key and no rename *)
+  | PFragStruct | PFragVariant => (keyword_replace tbl (to_snake_case (c_name c)), None)
   | POneOf => oneof_names tbl to_upper_camel_case (c_name c)
   | PEnumValue => (enum_variant_ident tbl (c_norm_rust c) to_upper_camel_case (c_name c), None)
   end.
@@ -60,7 +62,10 @@ Definition heck (c : case) : bool :=
        necessary for the emitted item to compile. *)
 Definition prop_wire (c : case) : bool :=
   match c_obs c with
-  | OField i r => String.eqb (wire_key (i, r)) (c_name c)
+  | OField i r => match c_pos c with
+                 | PFragStruct | PFragVariant => match r with None => true | Some _ => false end   (* flattened: no key of its own *)
+                 | _ => String.eqb (wire_key (i, r)) (c_name c)
+                 end
   | OEnum i s d => opt_eqb String.eqb s (Some (c_name c)) && opt_eqb String.eqb d (Some i)
   | OPanic | OMissing | OUnparsable => false
   end.
